@@ -188,6 +188,10 @@ func TestP1Budget(t *testing.T) {
 type limitCase struct {
 	Text   string   `json:"text"`
 	Expect []string `json:"expect"` // allowed error names
+	// Repeat: the program is run this many more times on the same interpreter
+	// (operand and dictionary stacks emptied in between); the last run must
+	// end like the first (a limit that was hit must not have moved)
+	Repeat int `json:"repeat,omitempty"`
 }
 
 func TestChild(t *testing.T) {
@@ -202,7 +206,20 @@ func TestChild(t *testing.T) {
 		intp := postscript.NewInterpreter()
 		intp.MaxOps = 0
 		err := intp.ExecuteString(c.Text)
-		isolate.ChildEnd(i, fmt.Sprintf("err=%s stack=%d dict=%d", pscanon.ErrorName(err), len(intp.Stack), len(intp.DictStack)))
+		res := fmt.Sprintf("err=%s stack=%d dict=%d", pscanon.ErrorName(err), len(intp.Stack), len(intp.DictStack))
+		if c.Repeat > 0 {
+			var again string
+			for k := 0; k < c.Repeat; k++ {
+				intp.Stack = intp.Stack[:0]
+				if len(intp.DictStack) > 2 {
+					intp.DictStack = intp.DictStack[:2]
+				}
+				err = intp.ExecuteString(c.Text)
+				again = fmt.Sprintf("err=%s stack=%d dict=%d", pscanon.ErrorName(err), len(intp.Stack), len(intp.DictStack))
+			}
+			res += " again " + again
+		}
+		isolate.ChildEnd(i, res)
 	}
 }
 
@@ -279,7 +296,7 @@ func eexecSection(body string) string {
 var eexecBodies = []string{
 	"{userdict begin} loop",
 	"{1 dict begin} loop",
-	"/a {1 dict begin a} def a",
+	"userdict /a {1 dict begin a} put a", // (not def: the current dictionary is systemdict, which may be read-only)
 	"0 1 10000000 {pop currentdict begin} for",
 }
 
@@ -321,7 +338,14 @@ func instance(t *rapid.T) limitCase {
 			text = "false { } { " + text + " } ifelse"
 		}
 	}
-	return limitCase{Text: text, Expect: tm.expect}
+	c := limitCase{Text: text, Expect: tm.expect}
+	// (not for a program that can end inside an open procedure body - one
+	// that is unclosed, or so long that collecting it overflows the stack: the
+	// next call legitimately continues that body)
+	if rapid.IntRange(0, 2).Draw(t, "repeated") == 0 && strings.Count(text, "{") == strings.Count(text, "}") && len(text) < 400 {
+		c.Repeat = rapid.SampledFrom([]int{1, 2, 3, 20}).Draw(t, "repeat")
+	}
+	return c
 }
 
 func judge(c limitCase, o isolate.Outcome) string {
@@ -335,7 +359,14 @@ func judge(c limitCase, o isolate.Outcome) string {
 	}
 	var errName string
 	var stack, dict int
-	fmt.Sscanf(strings.ReplaceAll(o.Result, "err= ", "err=- "), "err=%s stack=%d dict=%d", &errName, &stack, &dict)
+	first := o.Result
+	if i := strings.Index(first, " again "); i >= 0 {
+		if again := first[i+len(" again "):]; again != first[:i] {
+			return fmt.Sprintf("run %d of the same program on the same interpreter (stacks emptied in between) ends differently from the first run: %q, first %q (a limit moved)\nprogram: %s", c.Repeat+1, again, first[:i], c.Text)
+		}
+		first = first[:i]
+	}
+	fmt.Sscanf(strings.ReplaceAll(first, "err= ", "err=- "), "err=%s stack=%d dict=%d", &errName, &stack, &dict)
 	if strings.HasPrefix(o.Result, "err= ") {
 		errName = ""
 	}
@@ -372,7 +403,7 @@ func nameRecursionBug(rec *ev.Rec) bool {
 func TestP2Limits(t *testing.T) {
 	rec := ev.New("C11", "limits")
 	defer rec.Finish(t)
-	rec.Rule("recursion and growth templates run with MaxOps = 0 in a child process (a Go stack overflow or a hang is the failure mode): self-call in non-tail position directly and through exec, if, ifelse, repeat, forall (array, string), for, loop; mutual recursion over 2 and 3 names, also through names whose value is an executable name; a procedure applying itself; begin in loops and in recursion, also inside an eexec section entered at dictionary-stack depth 2..21 (the section adds one entry of its own); loops that push (loop, for, repeat, dup, count, inside an open array); error handlers in errordict that fail themselves or loop; exec chains 95-130 deep; array/string/dict requests of 65535 (the PLRM's architectural limit: must succeed), 65537 (success or limitcheck: what counts as oversized between 2^16 and 2^31 is the implementation's choice), 2^31, 2^32, maxint - each wrapped 0-3 times in exec / if / ifelse / repeat / begin / padding. Oracle: the run ends with the PostScript error the template determines (execstackoverflow, stackoverflow, dictstackoverflow, limitcheck ...), operand stack <= 2^20 and dictionary stack <= 2^16 entries (bounds far above the present limits of 500 / 20, which the property does not fix). Non-trivial: template nested >= 2 deep (>= 1 wrapper); distinct by program text.")
+	rec.Rule("recursion and growth templates run with MaxOps = 0 in a child process (a Go stack overflow or a hang is the failure mode): self-call in non-tail position directly and through exec, if, ifelse, repeat, forall (array, string), for, loop; mutual recursion over 2 and 3 names, also through names whose value is an executable name; a procedure applying itself; begin in loops and in recursion, also inside an eexec section entered at dictionary-stack depth 2..21 (the section adds one entry of its own); loops that push (loop, for, repeat, dup, count, inside an open array); error handlers in errordict that fail themselves or loop; exec chains 95-130 deep; array/string/dict requests of 65535 (the PLRM's architectural limit: must succeed), 65537 (success or limitcheck: what counts as oversized between 2^16 and 2^31 is the implementation's choice), 2^31, 2^32, maxint - each wrapped 0-3 times in exec / if / ifelse / repeat / begin / padding; a third of the instances is run 2-21 times on one interpreter (stacks emptied in between) and the last run must end exactly like the first - error name and stack depths. Oracle: the run ends with the PostScript error the template determines (execstackoverflow, stackoverflow, dictstackoverflow, limitcheck ...), operand stack <= 2^20 and dictionary stack <= 2^16 entries (bounds far above the present limits of 500 / 20, which the property does not fix). Non-trivial: template nested >= 2 deep (>= 1 wrapper); distinct by program text.")
 	bug := nameRecursionBug(rec)
 	var cases []limitCase
 	var raws [][]byte
